@@ -108,8 +108,11 @@ type world struct {
 	modes   map[string]fieldMode
 	latency bool
 	hang    bool // some resolver calls block on a slow backend until their context ends
-	ver     map[string]int // datum versions (live harness)
-	live    *liveState     // non-nil in the live (websocket) harness
+	// onBlocked tells the harness that a computation of the given subscription
+	// instance entered / left such a call
+	onBlocked func(inst int, blocked bool)
+	ver       map[string]int // datum versions (live harness)
+	live      *liveState     // non-nil in the live (websocket) harness
 }
 
 type failure struct {
@@ -217,15 +220,24 @@ func (w *world) point(ctx context.Context, field string, id int64) error {
 		}
 	}
 	if w.hang && w.c.Biased(2, 990, "resolver-waits-on-backend") > 0 {
-		// a backend call that takes 20 s and gives up as soon as the
+		// a backend call that hangs (15 minutes) and gives up as soon as the
 		// computation's context is cancelled (as database/sql and HTTP clients do)
 		w.c.Fault("resolver-blocked-on-backend")
-		tm := time.NewTimer(20 * time.Second)
+		if w.onBlocked != nil {
+			w.onBlocked(instOf(ctx), true)
+		}
+		tm := time.NewTimer(15 * time.Minute)
 		select {
 		case <-ctx.Done():
 			tm.Stop()
+			if w.onBlocked != nil {
+				w.onBlocked(instOf(ctx), false)
+			}
 			return ctx.Err()
 		case <-tm.C:
+		}
+		if w.onBlocked != nil {
+			w.onBlocked(instOf(ctx), false)
 		}
 	}
 	if w.latency && w.c.Biased(4, 600, "resolver-latency") > 0 {
